@@ -3,11 +3,45 @@ C06 — property theorems (only). Model: `HydroVerif/Model/C06.lean` (+ the inte
 `Model/C07.lean`); the direction-code table is `HydroVerif.Generated.FlowDir.codes`, regenerated from
 `FLOWDIRCODE` in grid.py on every run: every theorem below is about that table and goes through
 `tableOK` / `codes_esri` (`Lemmas/C06Table.lean`, closed by `decide` on the table as it is now).
-Helper lemmas: `Lemmas/C06.lean`, `Lemmas/C06Bfs.lean`, `Lemmas/C07Grid.lean`.
+Helper lemmas: `Lemmas/C06.lean`, `Lemmas/C06Bfs.lean`, `Lemmas/C06Real.lean`, `Lemmas/C07Grid.lean`.
 
 All theorems hold for every grid size (`0 < ncols`; a valid cell forces `0 < nrows`), every content of the
 flow-direction grid (any integer in any cell: the eight codes, 0, invalid codes), every outlet, every list of
-inlets (repeated entries, the outlet itself allowed), every buffer size and every start cell.
+inlets (repeated entries, the outlet itself allowed), every buffer size, every start cell, every history of
+calls on one object. Every model function named below is executed by `Drivers/C06.lean` and compared with the
+real code on every run.
+
+CLAUSE -> THEOREMS -> WHAT REMAINS OUTSIDE
+* the direction-code table shared by both relations is the ESRI one (grid.py FLOWDIRCODE, regenerated every run)
+    -> flowdir_table_is_esri, downstream_cases_complete
+    outside: nothing (decide on the generated table; the translator harness/gen_flowdir.py is trusted)
+* on every grid, upstream and downstream are inverse relations: u is reported upstream of d exactly when d is reported as the downstream cell of u
+    -> mem_upstream_iff, upstream_valid_nodup, upstreamRow_length, upstream_downstream_guard
+    outside: nothing; hypothesis ncols > 0 (quantifier: r, c >= 1). Row order of idxup is not part of the property (compared as a multiset)
+* sinks and off-grid exits (and invalid codes) are flagged by the documented negative codes -2 / -1
+    -> downstream_sink, downstream_esri, downstream_invalid_code, downstream_range, downstream_cases_complete
+    outside: nothing
+* the delineated area is exactly the outlet plus every cell whose downstream chain reaches the outlet without passing through an inlet; empty when nothing drains to the outlet; each cell listed once
+    -> delineate_ok_iff, reaches_unfold, delineate_cells_valid, wrapper_area_eq
+    outside: listing order of idxcells_area (not fixed by the property; not compared)
+* ...for every outlet x every set of inlets, and the call does return the area (total correctness, buffer size)
+    -> delineate_ok_iff_no_cycle, delineate_ok_of_room, delineate_outcomes
+    outside: the buffer must hold len(area)+1 entries (one more than the docstring says) — not a clause of the property
+* grids containing flow cycles end in an error or a bounded result, never a hang
+    -> delineate_cycle_error, delineate_outcomes, walks_bounded
+    outside: termination of the compiled code itself is observed (worker subprocess with time limits), the theorems are about the total model whose recursion bound is proved never to be the thing that stops it
+* the hole-filled area contains the area
+    -> filled_contains_area, filled_empty
+    outside: scipy.ndimage.binary_fill_holes is a parameter of the model with the hypothesis 'keeps the mask' (external); which extra cells it adds is only compared (scipy's answer fed back through the model's cell numbering)
+* river traces follow the same downstream chain, advancing 1 per orthogonal and sqrt(2) per diagonal step
+    -> river_trace, river_cells_are_chain, river_displacements, chain_step_euclidean, length_eq_orth_plus_sqrt2_diag, length_real, real_sqrt_hyps, river_guard, walks_bounded
+    outside: x, y columns are C07's cell centres (compared bit for bit, proved in C07); IEEE rounding of the running sum (Float instance executed and compared within 4 ulp)
+* flow-path lengths follow the same downstream chain with the same step lengths
+    -> flowpath_length, flowpath_on_area, flowpath_exit, chain_step_euclidean, length_eq_orth_plus_sqrt2_diag, length_real, pinned_step_misclassified, pinned_wrong_only_on_two_columns
+    outside: rows of cells that are not in a delineated area and neither meet the outlet within len(list)-1 steps nor leave the grid (e.g. the outlet's own row on a cycle cut by an inlet): bounded result only (walks_bounded), modelled and compared; IEEE rounding
+* histories: every answer of one Catchment object is about its current grid and the arguments of the call (re-delineation with another outlet / inlets incl. equal-size areas, flowdir edited in place or re-assigned, a failed delineation in between)
+    -> history_delineate, history_flowpaths, history_no_stale_area, wrapper_area_eq
+    outside: the state machine (Model: CatchState / histStep) is tied to the real object by the history stream of the correspondence; clone / pickle / edits of the grid handed to the constructor are compared with the model but never flagged (the property does not say which grid a clone holds — C13)
 -/
 import HydroVerif.Lemmas.C06
 import HydroVerif.Lemmas.C06Real
@@ -36,10 +70,9 @@ theorem flowdir_table_is_esri :
 
 /-! ### 1. upstream and downstream are inverse relations; sinks and exits are flagged -/
 
-/-- **inverse relations**: for valid cells `u`, `d`: `u` is listed upstream of `d` exactly when `d` is
-reported as the downstream cell of `u` -/
+/-- **inverse relations**: whenever `upstream d` answers (`d` a cell of the grid), any `u` is listed upstream of
+`d` exactly when `d` is reported as the downstream cell of `u` -/
 theorem mem_upstream_iff (hc : 0 < g.ncols) {u d : Int} {us : List Int}
-    (hu : validCell g.nrows g.ncols u = true)
     (hup : upstream codes g d = .ok us) :
     u ∈ us ↔ downstream codes g u = .ok d := by
   unfold upstream at hup
@@ -47,10 +80,16 @@ theorem mem_upstream_iff (hc : 0 < g.ncols) {u d : Int} {us : List Int}
   · rw [if_pos hd] at hup
     cases hup
     unfold downstream
-    rw [if_pos hu, mem_upstreamCells_iff tableOK hc hd u]
-    constructor
-    · rintro ⟨_, h⟩; rw [h]
-    · intro h; exact ⟨hu, by cases h; rfl⟩
+    by_cases hu : validCell g.nrows g.ncols u = true
+    · rw [if_pos hu, mem_upstreamCells_iff tableOK hc hd u]
+      constructor
+      · rintro ⟨_, h⟩; rw [h]
+      · intro h; exact ⟨hu, by cases h; rfl⟩
+    · -- a number that is not a cell is never listed, and has no downstream cell (the call is an error)
+      rw [if_neg hu]
+      constructor
+      · intro h; exact absurd (upstreamCells_valid h) hu
+      · intro h; cases h
   · rw [if_neg hd] at hup; cases hup
 
 /-- every cell listed upstream is a valid cell, and is listed once -/
